@@ -24,3 +24,12 @@ chk("C07",
     "Oracle: engine pairs, update option (hydraulic and thermal), reuse_internal_data with edited loads.",
     "Float-level agreement of the engines is measured, not proved. Known finding: update option + active pressure controller.",
     "Lean 4 proof of twin equality over translated kernels; bitwise self-check; differential engine/option runs", "8/C07")
+chk("C14",
+    "Lean theorems over the option-resolution model for all layers (arbitrary dicts): plain precedence call > user > default for "
+    "every key outside the documented couplings (unknown keys carried, absent keys stay absent), the exact iter/stage-limit "
+    "precedence chain, reuse/update coupling, deprecated mode mapping, numba fallback, fluid entry, dropped plotting keys, and "
+    "documented = actual defaults (both tables regenerated from source, decided by kernel evaluation). The hand-written model is "
+    "tied to init_options by an exhaustive correspondence: every option key x presence pattern, all 576 iter/stage-key patterns "
+    "of both layers, all coupling patterns, numba installed or not; input layers are checked for mutation.",
+    "Option values are opaque (no validation in the code either); aliasing of mutable values is checked by the harness only.",
+    "Lean 4 proof over a dict-merge model + generated default tables; exhaustive differential correspondence", "8/C14")
